@@ -161,7 +161,7 @@ def fp_obj(o):
 
 def norm(fp):
     """Same shape as after a JSON trip (tuples -> lists)."""
-    return json.loads(json.dumps(fp))
+    return json.loads(json.dumps(_plain(fp)))
 
 
 # ---------------------------------------------------------------------------
@@ -228,7 +228,14 @@ def physical(o):
         dim = sorted([a, float(b)] for a, b in q.dimensionality.items())
         try:
             m = q.to_root_units().magnitude
-            m = fp_number(m) if not isinstance(m, (int, float, Fraction, Decimal)) else ["num", float(m)]
+            if isinstance(m, (int, float, Fraction, Decimal)):
+                m = ["num", float(m)]
+            elif hasattr(m, "dtype") and getattr(m, "size", 99) <= 64:
+                import numpy as np
+                z = np.asarray(m).astype(complex).ravel()
+                m = ["arr", [[float(v.real), float(v.imag)] for v in z]]
+            else:
+                m = fp_number(m)
         except Exception as e:  # noqa: BLE001  offset compound units etc.
             m = ["ERR", type(e).__name__]
         return {"dim": dim, "root": m}
@@ -312,10 +319,23 @@ def battery(reg, Q, U, M, seed, spellings):
         a, b = rng.choice(pool), rng.choice(pool)
         out[f"conv:{a}->{b}"] = _ans(lambda: fp_number(reg.convert(1.5, a, b)))
         out[f"to:{a}->{b}"] = _ans(lambda: _q(Q(2.5, a).to(b)))
-        out[f"arith:{a},{b}"] = _ans(lambda: [_q(Q(2.0, a) * Q(3.0, b)), _q(Q(2.0, a) / U(b)),
-                                              _q(Q(2.0, a) + Q(3.0, a)), _q(3 * U(a)),
-                                              _ans(lambda: Q(2.0, a) < Q(3.0, b)),
-                                              _ans(lambda: Q(2.0, a) == Q(2.0, a))])
+        out[f"mulQQ:{a},{b}"] = _ans(lambda: _q(Q(2.0, a) * Q(3.0, b)))
+        out[f"divQQ:{a},{b}"] = _ans(lambda: _q(Q(2.0, a) / Q(3.0, b)))
+        out[f"mulQU:{a},{b}"] = _ans(lambda: _q(Q(2.0, a) * U(b)))
+        out[f"divQU:{a},{b}"] = _ans(lambda: _q(Q(2.0, a) / U(b)))
+        out[f"mulUQ:{a},{b}"] = _ans(lambda: _q(U(a) * Q(2.0, b)))
+        out[f"divUQ:{a},{b}"] = _ans(lambda: _q(U(a) / Q(2.0, b)))
+        out[f"mulUU:{a},{b}"] = _ans(lambda: _q(U(a) * U(b)))
+        out[f"divUU:{a},{b}"] = _ans(lambda: _q(U(a) / U(b)))
+        out[f"powU:{a}"] = _ans(lambda: _q(U(a) ** 2))
+        out[f"addQQ:{a}"] = _ans(lambda: _q(Q(2.0, a) + Q(3.0, a)))
+        out[f"rmulU:{a}"] = _ans(lambda: _q(3 * U(a)))
+        out[f"ltQQ:{a},{b}"] = _ans(lambda: _q(Q(2.0, a) < Q(3.0, b)))
+        out[f"eqQQ:{a}"] = _ans(lambda: _q(Q(2.0, a) == Q(2.0, a)))
+        out[f"eqQU:{a}"] = _ans(lambda: _q(Q(1, a) == U(a)))
+        out[f"ltUU:{a},{b}"] = _ans(lambda: _q(U(a) < U(b)))
+        out[f"QfromU:{a}"] = _ans(lambda: _q(Q(2.0, U(a))))
+        out[f"to(U):{a},{b}"] = _ans(lambda: _q(Q(2.0, a).to(U(b))))
     for u in ("kilometer", "inch", "gram", "hour"):
         out["compact:" + u] = _ans(lambda: _q(Q(123456.0, u).to_compact()))
         out["tobase:" + u] = _ans(lambda: _q(Q(3.0, u).to_base_units()))
@@ -325,7 +345,7 @@ def battery(reg, Q, U, M, seed, spellings):
         out["copy:" + u] = _ans(lambda: _q(__import__("copy").deepcopy(Q(3.0, u))))
         out["isinst:" + u] = _ans(lambda: [type(Q(1, u)).__name__, type(U(u)).__name__,
                                            Q(1, u)._REGISTRY is _unwrap(reg), U(u)._REGISTRY is _unwrap(reg),
-                                           (Q(1, u) * U(u))._REGISTRY is _unwrap(reg),
+                                           (Q(1, u) * Q(2, u))._REGISTRY is _unwrap(reg),
                                            Q(1, u).to_base_units()._REGISTRY is _unwrap(reg)])
     out["ctx:sp"] = _ans(lambda: _q(Q(500.0, "nm").to("THz", "sp")))
     out["with_ctx"] = _ans(lambda: _with_ctx(reg, Q))
@@ -500,13 +520,29 @@ def run_unpickle(job):
     return {"items": norm(out), "app_class": type(app.get()).__name__}
 
 
+def _plain(x):
+    """numpy scalars etc. -> JSON-able."""
+    if isinstance(x, dict):
+        return {str(k): _plain(v) for k, v in x.items()}
+    if isinstance(x, (list, tuple)):
+        return [_plain(v) for v in x]
+    if x is None or isinstance(x, (bool, int, float, str)):
+        return x
+    if hasattr(x, "item"):
+        try:
+            return _plain(x.item())
+        except Exception:  # noqa: BLE001
+            pass
+    return repr(x)
+
+
 def main(argv):
     job = json.load(open(argv[0]))
     if job["job"] == "lazy":
         res = run_lazy(job)
     else:
         res = run_unpickle(job)
-    json.dump(res, open(argv[1], "w"))
+    json.dump(_plain(res), open(argv[1], "w"))
 
 
 if __name__ == "__main__":
